@@ -183,7 +183,7 @@ def do_thread_plan(world, plan):
 class C19(Check):
     PROP = "C19"
     LEVEL = "exploration"
-    RUNS = {"quick": 600, "thorough": 20000}
+    RUNS = {"quick": 1000, "thorough": 24000}
     PROFILE = {"p_lazy": 1.0, "allow_frozen": False, "allow_class_dnc": False, "n_attrs": (2, 5), "allow_new_shapes": True, "p_sub": 0.6}
     RULE = ("one evaluation = one simulated run: a generated lazily-bootstrapped class (plus optional spec/plain subclass), "
             "2-3 threads each doing a first use + construction + helper call under one seeded schedule (bounded "
@@ -258,7 +258,20 @@ class C19(Check):
             plans = self.gen_plan(src, spec, None)
             first = src.randint(0, len(plans) - 1)
             recorded = None
-        ctx.case.update({"spec": spec, "plans": plans, "first": first})
+            if spec.get("sub") and src.chance(0.3):
+                # the parent has been bootstrapped by somebody else's earlier use, the subclass has not: one thread
+                # looks a helper up on the subclass while another one makes the subclass's first real use
+                spec["_pre_parent"] = True
+                if src.chance(0.8) and len(plans) >= 2:
+                    plans[0].update({"first_use": "helper_on_class", "use_cls": "sub"})
+                    plans[1].update({"first_use": "instantiate", "role": "sub", "kw": self.gen_kw(src, spec, "sub")})
+                    first = 0  # the lookup starts first (what happens once it is pre-empted is up to the schedule)
+        if ctx.replay:
+            pre = c.get("pre_parent", False)
+        else:
+            pre = bool(spec.pop("_pre_parent", False))
+        ctx.case.update({"spec": spec, "plans": plans, "first": first, "pre_parent": pre})
+        self._pre_parent = pre
 
         # ---- eager sequential reference -----------------------------------------------
         espec = _eager(spec)
@@ -353,6 +366,8 @@ class C19(Check):
         saved = patch_locks(sched)
         try:
             world = World(spec)
+            if getattr(self, "_pre_parent", False):
+                getattr(world.classes["host"], "__spec_class__")  # (a metadata lookup bootstraps the parent only)
             for i, p in enumerate(plans):
                 sched.add(lambda p=p: do_thread_plan(world, p))
             sched.run(first=first)
